@@ -638,3 +638,10 @@ VARIANTS += [
       "                                        and module_qname\n                                        in {\n                                            wildcard_import.module_name,\n                                            f\"{reexport_source.id.replace('/', '.')}.{wildcard_import.module_name}\",\n                                        }",
       "                                        and wildcard_import.module_name == module_qname", "C04.REEXPORT-GUARDS"),
 ]
+VARIANTS += [
+    V("C17", "nested classes of a private base copied without the defined names again", GEN,
+      "            if not is_internal(inner_class.name) and inner_class.name not in already_defined_names:", "            if not is_internal(inner_class.name):", "C17.FILTER"),
+    V("C17", "copied nested class not recorded", GEN, "                existing_names.add(inner_class.name)\n", "", "C17.FILTER"),
+    V("C17", "own nested classes not among the defined names again", GEN,
+      "        already_defined_names.update(inner_class.name for inner_class in class_.classes if inner_class.is_public)\n", "", "C17.OWN-FIRST"),
+]
